@@ -457,7 +457,7 @@ class Desugarer:
         if target is None:
             return False
         a = t['args']
-        recv = B.local('_')
+        recv = B.local('bool' if kind == 'bool::then' else '_')
         pre = [assign(recv, use(a[0]), span)]
 
         def call(ai, args, dplace, tgt):
